@@ -51,6 +51,11 @@ pub enum TOp {
     Publish { slot: u8, content: u8 },
     Withdraw { slot: u8 },
     Read,
+    /// the spare CA `ca3` (no parent, nothing published) exists to be deleted while others use it
+    SpareUpdateId,
+    SpareRead,
+    /// only thread 0 does this: deletes the spare CA if it is there, creates it again if it is not
+    SpareDelete,
 }
 
 #[derive(Clone, Debug, Serialize, Deserialize)]
@@ -78,7 +83,18 @@ fn top() -> impl Strategy<Value = TOp> {
         4 => (0u8..6, 0u8..4).prop_map(|(slot, content)| TOp::Publish { slot, content }),
         2 => (0u8..6).prop_map(|slot| TOp::Withdraw { slot }),
         2 => Just(TOp::Read),
+        2 => Just(TOp::SpareUpdateId),
+        2 => Just(TOp::SpareRead),
+        3 => Just(TOp::SpareDelete),
     ]
+}
+
+pub const SPARE: &str = "ca3";
+
+/// A request to the spare CA may find it deleted: that is the answer of a serial order in which the deletion came first.
+pub fn spare_gone(e: &str) -> bool {
+    let e = e.to_ascii_lowercase();
+    e.contains("unknown") || e.contains("not found") || e.contains("does not exist") || e.contains("no such") || e.contains("ca-unknown") || e.contains("404")
 }
 
 fn spec(t: usize, slot: u8) -> RoaSpec {
@@ -131,6 +147,7 @@ fn run_thread(w: &World, t: usize, ops: &[TOp], stop: &AtomicBool) -> Done {
     let mut st = ThreadState { roas: BTreeMap::new(), files: BTreeMap::new() };
     let mut done = Vec::new();
     let csrs = crate::csr::pool();
+    let mut spare_deleted = false;
     for op in ops {
         if stop.load(Ordering::Relaxed) {
             break;
@@ -199,6 +216,32 @@ fn run_thread(w: &World, t: usize, ops: &[TOp], stop: &AtomicBool) -> Done {
                 st.files.remove(slot);
                 Ok(())
             }
+            TOp::SpareUpdateId => w.ca_update_id(SPARE),
+            TOp::SpareRead => {
+                let h = rpki::ca::idexchange::CaHandle::from_str(SPARE).unwrap();
+                let c = w.cam().get_ca(&h).map_err(|e| e.to_string())?;
+                let _ = c.configured_roas();
+                let _ = w.cam().get_ca_status(&h).map_err(|e| e.to_string())?;
+                Ok(())
+            }
+            TOp::SpareDelete => {
+                if t != 0 {
+                    Ok(())
+                } else if !spare_deleted {
+                    let r = w.ca_delete(SPARE);
+                    if r.is_ok() {
+                        spare_deleted = true;
+                    }
+                    r
+                } else {
+                    // (the CA only: its publisher stays at the publication server when a CA is deleted)
+                    let r = w.cam().init_ca(rpki::ca::idexchange::CaHandle::from_str(SPARE).unwrap(), &w.rt).map_err(|e| e.to_string());
+                    if r.is_ok() {
+                        spare_deleted = false;
+                    }
+                    r
+                }
+            }
             TOp::Read => {
                 // readers: every entity loads and lists
                 for ca in CAS {
@@ -241,6 +284,8 @@ fn run_case(case: &Case) -> Result<Result<Vec<String>, Bad>, String> {
         Op::Quiesce,
         Op::CaAdd { ca: 2 },
         Op::Attach { ca: 2, parent: 0, res: 0x7fff },
+        Op::Quiesce,
+        Op::CaAdd { ca: 3 },
         Op::Quiesce,
     ] {
         sim.apply(&op).map_err(fail)?;
@@ -330,6 +375,11 @@ fn run_case(case: &Case) -> Result<Result<Vec<String>, Bad>, String> {
     }
 
     // answers: as in a serial execution, i.e. all succeed
+    let delete_issued = results.first().map(|d| d.iter().any(|(op, _)| matches!(op, TOp::SpareDelete))).unwrap_or(false);
+    let spare_users = results.iter().enumerate().filter(|(t, d)| *t != 0 && d.iter().any(|(op, _)| matches!(op, TOp::SpareUpdateId | TOp::SpareRead))).count();
+    if delete_issued && spare_users > 0 {
+        classes.insert("ca_deleted_while_others_use_it".into());
+    }
     let mut same_ca: BTreeMap<u8, BTreeSet<usize>> = BTreeMap::new();
     for (t, done) in results.iter().enumerate() {
         for (op, r) in done {
@@ -340,6 +390,10 @@ fn run_case(case: &Case) -> Result<Result<Vec<String>, Bad>, String> {
                 }
                 // a key roll can only start when the previous one is done
                 if matches!(op, TOp::KeyrollInit) {
+                    continue;
+                }
+                // the spare CA may be gone already
+                if matches!(op, TOp::SpareUpdateId | TOp::SpareRead) && delete_issued && spare_gone(e) {
                     continue;
                 }
                 return Ok(Err(bad("c18-request-failed", &format!("{op:?}").split([' ', '{']).next().unwrap_or("op").to_string(), format!("thread {t} {op:?} failed although it succeeds in every serial order: {e}"))));
@@ -407,6 +461,23 @@ fn run_case(case: &Case) -> Result<Result<Vec<String>, Bad>, String> {
         for (slot, bytes) in my_files {
             files.insert(file_uri(t, slot).to_string(), bytes);
         }
+    }
+    // the spare CA: every acknowledged deletion / re-creation of thread 0 toggles it
+    let toggles = results.first().map(|d| d.iter().filter(|(op, r)| matches!(op, TOp::SpareDelete) && r.is_ok()).count()).unwrap_or(0);
+    {
+        let h = rpki::ca::idexchange::CaHandle::from_str(SPARE).unwrap();
+        let there = sim.w().cam().get_ca(&h).is_ok();
+        let expect_there = toggles % 2 == 0;
+        if there != expect_there {
+            return Ok(Err(bad("c18-delete", if there { "ca-still-there" } else { "ca-vanished" }, format!("after {toggles} acknowledged deletions / re-creations {SPARE} should {} but it {}", if expect_there { "exist" } else { "be gone" }, if there { "exists" } else { "is gone" }))));
+        }
+        if toggles > 1 {
+            classes.insert("ca_deleted_and_created_again".into());
+        }
+        if there {
+            sim.w().ca_delete(SPARE).map_err(|e| format!("deleting the spare CA afterwards: {e}"))?;
+        }
+        sim.model.cas.remove(SPARE);
     }
     // background work catches up (sequentially now)
     if let Err(f) = sim.converge() {
